@@ -30,7 +30,13 @@ def spec(tier):
                     sym["zp1"] = Z
                 if th and (clo > 0 and nops >= 3):
                     sym["zp2"] = Z
-                obs.append(CH(name=f"structure_plan{pi}_probs{qi}_c{int(clo)}", harness="c15.gen_structure", sym=sym, fixed=fixed, timeout=1200))
+                if nops >= 3 and not th:
+                    for (plo, phi) in ((-4.0, 0.0), (0.0, 4.0)):
+                        s2 = dict(sym)
+                        s2["zp0"] = ("float", plo, phi)
+                        obs.append(CH(name=f"structure_plan{pi}_probs{qi}_c{int(clo)}_p{int(plo)}", harness="c15.gen_structure", sym=s2, fixed=fixed, timeout=1200))
+                else:
+                    obs.append(CH(name=f"structure_plan{pi}_probs{qi}_c{int(clo)}", harness="c15.gen_structure", sym=sym, fixed=fixed, timeout=1200))
     # other ratios
     for ratio in (0.0, 1.0, 0.25):
         obs.append(CH(name=f"structure_ratio{ratio}", harness="c15.gen_structure", sym=dict(c0=I(0, 2), zc0=("float", -4.0, 3.9), zp0=Z, zp1=Z),
